@@ -465,6 +465,29 @@ def rule_d(ctx, ix):
     if f is None:
         raise AnalysisError('CompositeSubsetState.__init__ vanished')
     common.check_ctor_copies(ctx, R1, comp, f, params=f.params[1:3])
+    # the many-way or does not copy its parts (performance), but the LIST of parts is its own: copy() hands self.states to the
+    # constructor, so a constructor that keeps the list it is given makes the copy, the original and the caller's list one object
+    mo = ix.cls(SUBSET + '.MultiOrState')
+    g = mo.resolve_func('__init__')
+    if g is None:
+        raise AnalysisError('MultiOrState.__init__ vanished')
+    p_ = g.params[1]
+    kept = [st for st in walk_no_nested(g.node) if isinstance(st, ast.Assign) and any(
+        isinstance(t, ast.Attribute) and isinstance(t.value, ast.Name) and t.value.id == g.self_name for t in st.targets)
+        and any(isinstance(n_, ast.Name) and n_.id == p_ for n_ in ast.walk(st.value))]
+    if not kept:
+        raise AnalysisError('MultiOrState.__init__: the store of the parts is no longer recognised')
+    for st in kept:
+        v = st.value
+        fresh = (isinstance(v, ast.Call) and isinstance(v.func, ast.Name) and v.func.id in ('list', 'tuple', 'sorted')) or \
+            isinstance(v, (ast.ListComp, ast.List, ast.Tuple)) or \
+            (isinstance(v, ast.Subscript) and isinstance(v.slice, ast.Slice)) or \
+            (isinstance(v, ast.Call) and isinstance(v.func, ast.Attribute) and v.func.attr == 'copy')
+        ctx.ob(R1, g.construct, 'the many-way or keeps a list of parts of its own', fresh,
+               detail='MultiOrState.__init__ keeps the list object it is given (`%s`), and copy() passes self.states: a copy and the '
+                      'original share one list, so adding a part to the copy (an edit mode that keeps repeated "or" selections flat) '
+                      'changes the selection that was saved for undo - and the caller\'s list stays connected to the state' % norm(st),
+               where=where(g, st))
 
     # (ii) --------------------------------------------------------------------------
     for c in base.subclasses():
